@@ -42,6 +42,39 @@ def float_bits(text):
     return struct.unpack(">Q", struct.pack(">d", x))[0]
 
 
+def hexs(s):
+    return binascii.hexlify(s.encode()).decode()
+
+
+def tempo_items(c):
+    """the field values of the structs json.Marshal walks, as a flat list of hex items (decoded by fill_vals in model/JsonStream.v)"""
+    its = []
+    if c["kind"] == "trace":
+        for j in c.get("jspans") or []:
+            f = j["f"]
+            its += f[:5] + [hexs(f[5]), hexs(f[6])] + f[7:9]
+            its.append(hexs(str(len(j["attrs"]))))
+            for k, v in j["attrs"]:
+                its += [k, v]
+            its.append(hexs(str(len(j["events"]))))
+            for t, n in j["events"]:
+                its += [hexs(t), n]
+            st = j.get("status") or []
+            its += [hexs("1"), hexs(st[0]), st[1]] if st else [hexs("0"), hexs("0"), ""]
+        return its
+    for b in c.get("traces") or []:
+        for t in b or []:
+            if c["kind"] == "search":
+                its += [hexs(t["tid"]), t["svc"], t["name"], hexs(str(t["start"])), hexs(str(t["dur"]))]
+            else:
+                d = t["dur"]
+                dur = 1e-7 if d == 1 else 2.5e-9 if d == 7 else 1.5e21 if d >= 1 << 62 else d / 8      # traceDur of the harness
+                bits = struct.unpack(">Q", struct.pack(">d", float(dur)))[0]
+                its += [hexs(t["tid"]), t["svc"], t["name"], hexs(str(t["start"])), hexs(str(bits)), hexs(t["tid"][:16]),
+                        hexs(str(t["dur"])), hexs(str(t.get("fl", 0)))]
+    return its
+
+
 def case_to_line(c):
     """id | kind | #labelsets { #pairs { k | v } } | #batches { #entries { fp | labelset | ts | err | msg | bits } } | #items { item } | #order { fp } | out
     (decoded by decode_case in model/JsonStream.v; the number texts are computed by the model from ts and the float bits)"""
@@ -72,7 +105,7 @@ def case_to_line(c):
         for e in b or []:
             f += [e["fp"], str(intern(e.get("lbls"))), str(e["ts"]), str(e.get("err", 0)),
                   esc(unhex(e["msg"])), str(float_bits(e.get("v")))]
-    items = c.get("items") or []
+    items = tempo_items(c) if c["kind"] in ("trace", "search", "searchql") else (c.get("items") or [])
     f.append(str(len(items)))
     f += [esc(unhex(it)) for it in items]
     order = [o for o in (c.get("order") or []) if o.isdigit()]
